@@ -145,6 +145,78 @@ def _job(job):
     return acc
 
 
+RANGE_OPTS = [
+    ('ekern', {'encoding': E.eKern}, True),
+    ('no-decoration', {'exclude': {TC.DECORATION}}, True),
+    ('first-spine', {'spine_ids': [0]}, True),
+    ('last-spine', {'spine_ids': 'LAST'}, True),
+    ('kern-types', {'spine_types': ['**kern']}, True),
+    ('first-spine+ekern+no-decoration', {'spine_ids': [0], 'encoding': E.eKern, 'exclude': {TC.DECORATION}}, True),
+    ('kern-types+bekern', {'spine_types': ['**kern'], 'encoding': E.bEkern}, True),
+    ('all-but-first+no-barlines', {'spine_ids': 'REST', 'exclude': {TC.BARLINES}}, False),
+    ('last-spine+no-barlines+ekern', {'spine_ids': 'LAST', 'exclude': {TC.BARLINES}, 'encoding': E.eKern}, False),
+    ('kern-types+akern+no-signatures', {'spine_types': ['**kern'], 'encoding': E.agnosticKern, 'exclude': {TC.SIGNATURES}}, True),
+    ('two-spines+include-core-structure', {'spine_ids': 'FIRST_LAST', 'include': {TC.CORE, TC.STRUCTURAL, TC.BARLINES}}, True),
+]
+
+
+def _range_job(job):
+    """measure ranges together with the other options: the excerpt must be well formed (SpineModel acceptor of C08) and, where barlines are kept,
+    its data lines must be those of the same measures in the whole export under the same options (tiling oracle of C07)"""
+    di, tier, seed = job
+    from . import c07, c08
+    acc = Acc()
+    name, m = family(tier, seed)[di]
+    text = m.text()
+    doc, _ = kp.loads(text)
+    try:
+        M = doc.measures_count()
+    except Exception:
+        return acc
+    ns = len(m.headers)
+    for label, o, tiling in RANGE_OPTS:
+        kw = {}
+        for k, v in o.items():
+            kw[k] = {'LAST': [ns - 1], 'REST': list(range(1, ns)), 'FIRST_LAST': sorted({0, ns - 1})}.get(v, v) if isinstance(v, str) else v
+        case = {'doc': name, 'seed': seed, 'tier': tier, 'text': text, 'range_options': label}
+        sel = {i for i in range(ns) if (('spine_ids' not in kw) or i in kw['spine_ids']) and (('spine_types' not in kw) or m.headers[i] in kw['spine_types'])}
+        crows = m.crows()
+        bar_rows = [r for r in crows if r and r[0].spec.get('cat') == 'BARLINES']
+        selected_alive_throughout = all(any(c.spine in sel for c in r) for r in bar_rows)
+        starts = c08.model_measures([[c.src for c in r] for r in crows])
+        if tiling and selected_alive_throughout:
+            tmp = Acc()
+            c07.oracle(tmp, text, dict(case), kw)
+            acc.count('transitions', tmp.n.get('transitions', 0))
+            acc.count('evaluations', tmp.n.get('evaluations', 0))
+            for v in tmp.viol:
+                acc.violation(Viol('range-with-options', v['cls'] + ':' + v['symptom'], dict(v['case'], range_options=label), v['expected'], v['observed']))
+        for a in range(1, M + 1):
+            for b in range(a, M + 1):
+                acc.count('transitions')
+                acc.count('evaluations')
+                acc.nontriv((di, label, a, b))
+                c2 = dict(case, from_measure=a, to_measure=b)
+                if len(starts) == M and not any(c.spine in sel for c in crows[starts[a - 1]]):
+                    continue        # none of the selected spines is alive where the range starts: nothing is claimed about such an export
+                try:
+                    out = kp.dumps(doc, from_measure=a, to_measure=b, **kw)
+                except Exception as e:  # noqa
+                    acc.violation(Viol('range-with-options', 'raises', c2, 'text', f'{type(e).__name__}: {str(e)[:100]}'))
+                    continue
+                acc.count('traces')
+                if out == '':
+                    continue        # no selected spine is alive in that range
+                rows = [x.split('\t') for x in out.split('\n') if x]
+                try:
+                    c08.contexts(rows)
+                except ValueError as e:
+                    sym = str(e)
+                    sym = 'cell-count-inconsistent-with-spine-operators' if sym.startswith('cell-count') else sym
+                    acc.violation(Viol('range-with-options', 'malformed-' + sym, c2, 'well-formed Humdrum', out[:300]))
+    return acc
+
+
 def run(ctx):
     fam = family(ctx.tier, ctx.seed)
     ctx.rule = ('documents x (spine-id subsets x type subsets x 23 category selections x 6 encodings) + one explicit-default spelling per case; '
@@ -154,10 +226,16 @@ def run(ctx):
                        'comparison leniencies of DESIGN §2.1']
     nparts = 8
     ctx.pmap(_job, [(di, ctx.tier, ctx.seed, p, nparts) for di in range(len(fam)) for p in range(nparts)], chunksize=1)
+    ctx.pmap(_range_job, [(di, ctx.tier, ctx.seed) for di in range(len(fam))], chunksize=1)
 
 
 def replay(case):
     acc = Acc()
+    if 'range_options' in case:
+        fam = family(case.get('tier', 'quick'), case.get('seed', 0))
+        di = [n for n, _ in fam].index(case['doc'])
+        d = _range_job((di, case.get('tier', 'quick'), case.get('seed', 0)))
+        return [v for v in d.viol if v['case'].get('range_options') == case['range_options']]
     if 'options_object' in case:
         fam = family(case.get('tier', 'quick'), case.get('seed', 0))
         di = [n for n, _ in fam].index(case['doc'])
